@@ -95,6 +95,53 @@ pub fn html5ever_tokens(input: &str) -> Vec<HTok> {
     tokens
 }
 
+#[derive(Clone, Copy, Debug, PartialEq, Eq)]
+pub enum ProbeCtx {
+    /// the tree builder ignored the probe start tag (in select / in frameset / after frameset insertion modes)
+    Ignored,
+    /// inserted, with a `select` element among its ancestors (template contents followed)
+    InSelect,
+    Elsewhere,
+}
+
+/// where does the real tree builder put an unknown start tag appended to `prefix`?
+pub fn probe_context(prefix: &str) -> ProbeCtx {
+    use html5ever::tendril::TendrilSink;
+    use markup5ever_rcdom::{Handle, NodeData};
+    let mut doc = String::with_capacity(prefix.len() + 8);
+    doc.push_str(prefix);
+    doc.push_str("<vprobe>");
+    let dom = html5ever::parse_document(RcDom::default(), html5ever::ParseOpts { tokenizer: TokenizerOpts { discard_bom: false, ..TokenizerOpts::default() }, tree_builder: TreeBuilderOpts::default() }).one(doc);
+    fn walk(h: &Handle, in_select: bool) -> Option<bool> {
+        let mut inside = in_select;
+        if let NodeData::Element { name, template_contents, .. } = &h.data {
+            let n: &str = &name.local;
+            if n == "vprobe" {
+                return Some(in_select);
+            }
+            if n == "select" {
+                inside = true;
+            }
+            if let Some(t) = template_contents.borrow().as_ref() {
+                if let Some(r) = walk(t, inside) {
+                    return Some(r);
+                }
+            }
+        }
+        for c in h.children.borrow().iter() {
+            if let Some(r) = walk(c, inside) {
+                return Some(r);
+            }
+        }
+        None
+    }
+    match walk(&dom.document, false) {
+        None => ProbeCtx::Ignored,
+        Some(true) => ProbeCtx::InSelect,
+        Some(false) => ProbeCtx::Elsewhere,
+    }
+}
+
 // ------------------------------------------------------------------------------------------
 // entity decoding (lol-html hands out raw text; html5ever decodes character references)
 // ------------------------------------------------------------------------------------------
